@@ -341,7 +341,10 @@ def run(tier):
     tasks = ksweep.build_tasks(reqs, D, N, ["value", "canon"], "corners", 20000, 600)
     for t in tasks:
         t["spec"] = spec_of[Request.make(t["assignment"], t["formats"]).key()]
-    results = ksweep.run_tasks(tasks)
+    import os as _os
+
+    wall_budget = None if tier == "quick" else int(_os.environ.get("VERIF_THOROUGH_BUDGET_S", "2400"))
+    results = ksweep.run_tasks(tasks, wall_budget=wall_budget)
     agg = {"paths": 0, "queries": 0, "solver_s": 0.0, "decisions": 0}
     refused = 0
     gen = set()
@@ -371,7 +374,7 @@ def run(tier):
         "states": tot["paths"] + agg["paths"], "transitions": tot["decisions"] + agg["decisions"],
         "traces_validated_against_impl": 0, "samples": samples,
         "operator_cases": len(cs), "stage1_paths": tot["paths"], "stage1_recorded": n_rec, "stage1_refused": n_raise,
-        "stage2_requests": len(reqs), "stage2_generated": len(gen), "stage2_no_kernel_refusals": refused,
+        "stage2_requests": len(reqs), "stage2_tasks": len(tasks), "stage2_tasks_completed": len(results), "stage2_generated": len(gen), "stage2_no_kernel_refusals": refused,
         "stage2_paths": agg["paths"], "queries_discharged": tot["queries"] + agg["queries"],
         "solver_s": round(tot["solver_s"] + agg["solver_s"], 2),
         "bounds": {"orders": "0..2 (quick) / 0..3 (thorough); @: 1..2", "dimension sizes stage 1": "0..2^31-1 symbolic",
